@@ -78,11 +78,11 @@ Proof. exact L_no_character_is_silenced. Qed.
 Print Assumptions no_character_is_silenced.
 
 Theorem every_character_speaks : forall file entries c rs, In (file, entries) unicode_entries -> In (c, rs) entries ->
-  may_be_silent c = false -> forall s, (0 < fst (evals rs s))%nat.
+  may_be_silent c = false -> forall s, (0 < spoken (fst (tr_items rs s)))%nat.
 Proof. exact L_every_character_speaks. Qed.
 Print Assumptions every_character_speaks.
 
 (* the analysis is sound for every replacement, not only the generated ones *)
-Theorem speaks_analysis_is_sound : forall rs, speaks_list rs = true -> forall s, (0 < fst (evals rs s))%nat.
+Theorem speaks_analysis_is_sound : forall rs, speaks_items rs = true -> forall s, (0 < spoken (fst (tr_items rs s)))%nat.
 Proof. exact L_speaks_list_sound. Qed.
 Print Assumptions speaks_analysis_is_sound.
